@@ -60,6 +60,11 @@ pub struct Corpus {
     /// one known-euclidean witness per invariant-table entry:
     /// (base literal as entry W<i>, [k1, j1, k2, j2])
     pub sg_witnesses: Vec<(Entry, [usize; 4])>,
+    /// (k, seed) of closed manifolds from seeded random face pairings of k
+    /// tetrahedra (gen::random_triangulation), curated with
+    /// `dsym_sim curate-triangulations`; every use regenerates the D-set and
+    /// re-verifies it with dsx::manifold_check
+    pub triangulations: Vec<(usize, u64)>,
 }
 
 impl Corpus {
@@ -122,7 +127,20 @@ impl Corpus {
             let id = format!("W{}", sg_witnesses.len());
             sg_witnesses.push((Entry { id, text: s.to_text(), provenance: parts[2..].join(" ") }, [nums[0], nums[1], nums[2], nums[3]]));
         }
-        Ok(Corpus { k0, finite, g, extra_from, finite_small, manifold_covers, sg_witnesses })
+        let mut triangulations = vec![];
+        let path = root.join("random_triangulations.txt");
+        let content = std::fs::read_to_string(&path).map_err(|e| format!("{}: {}", path.display(), e))?;
+        for line in content.lines() {
+            if line.starts_with('#') || line.trim().is_empty() {
+                continue;
+            }
+            let parts: Vec<&str> = line.split('\t').collect();
+            match (parts.first().and_then(|x| x.trim().parse::<usize>().ok()), parts.get(1).and_then(|x| x.trim().parse::<u64>().ok())) {
+                (Some(k), Some(seed)) if k >= 1 && k <= 8 => triangulations.push((k, seed)),
+                _ => return Err(format!("{}: bad line {:?}", path.display(), line)),
+            }
+        }
+        Ok(Corpus { k0, finite, g, extra_from, finite_small, manifold_covers, sg_witnesses, triangulations })
     }
 }
 
